@@ -10,6 +10,8 @@ import DS.Model.Orbit
 import DS.Model.Constraints
 import DS.Model.Lookup
 import DS.Model.Cif
+import DS.Model.CifNum
+import DS.Model.Column
 import DS.Model.Partition
 import DS.Gen.Lookup
 import DS.Model.Adp
@@ -293,6 +295,8 @@ def handlers : List (List String → Option String) :=
   , adpHandle
   , latHandle
   , DS.Expand.expandHandle
+  , DS.CifNum.cifnumHandle
+  , DS.Column.columnHandle
   ]
 
 def handle (ws : List String) : String :=
